@@ -264,6 +264,11 @@ pub struct BqStream {
     /// spin/yield perturbation inside callbacks (generated)
     pub jitter: Vec<u8>,
     pub flush_hold: Option<Arc<FlushHold>>,
+    /// the result / flush scripts repeat instead of falling back to Ok when used up
+    pub cycle: bool,
+    /// results for the queue's own in-band report entries (default Ok)
+    pub report_results: Vec<SRes>,
+    pub n_report: usize,
 }
 impl BqStream {
     pub fn new(results: Vec<SRes>, gate: Arc<Gate>, log: Arc<EventLog>) -> Self {
@@ -276,6 +281,9 @@ impl BqStream {
             n_flush: 0,
             jitter: vec![],
             flush_hold: None,
+            cycle: false,
+            report_results: vec![],
+            n_report: 0,
         }
     }
 }
@@ -302,9 +310,17 @@ impl EntryIoStream for BqStream {
             jitter(self.jitter[self.n_next % self.jitter.len()]);
         }
         let r = match seen {
-            Seen::Report => SRes::Ok,
+            Seen::Report => {
+                let r = self.report_results.get(self.n_report).copied().unwrap_or(SRes::Ok);
+                self.n_report += 1;
+                r
+            }
             _ => {
-                let r = self.results.get(self.n_next).copied().unwrap_or(SRes::Ok);
+                let r = if self.cycle && !self.results.is_empty() {
+                    self.results[self.n_next % self.results.len()]
+                } else {
+                    self.results.get(self.n_next).copied().unwrap_or(SRes::Ok)
+                };
                 self.n_next += 1;
                 r
             }
@@ -330,7 +346,12 @@ impl EntryIoStream for BqStream {
         if let Some(h) = &self.flush_hold {
             h.on_flush();
         }
-        if self.flush_ok.get(i).copied().unwrap_or(true) {
+        let ok = if self.cycle && !self.flush_ok.is_empty() {
+            self.flush_ok[i % self.flush_ok.len()]
+        } else {
+            self.flush_ok.get(i).copied().unwrap_or(true)
+        };
+        if ok {
             Ok(())
         } else {
             Err(io::Error::other("scripted flush error"))
